@@ -165,6 +165,56 @@ Definition arr_set_value (B : behaviour) (a : arr) (vshape : list Z) (buf : Z) (
   if buf <? prod cnt then UB value_overrun_write
   else write_slab false a off cnt (map gen (seq 0 (Z.to_nat (prod cnt)))).
 
+(** * Every template route of DataSet.hpp through a view, for every typed container
+
+    The container kinds are the [route]s of Data/NDArr.v (Hydra data_traits: scalar, T[N], T[M][N], std::vector,
+    std::valarray, boost::multi_array, nix::NDArray) with their [route_shape] and [route_resize] rules.  A container
+    with extents [ext] holds [route_buf] elements.
+
+      getData(T &value)                   resize(value, dataExtent()); getData(dtype, ptr, shape(value), {})
+      getData(T &value, count, offset)    resize(value, count);        getData(dtype, ptr, count, offset)
+      getData(T &value, offset)           (above: [view_get_value])
+      setData(const T &value)             dataExtent(shape(value)) - DataView::dataExtent(const NDSize &) always throws
+                                          std::runtime_error("Not allowed!"): a view cannot be resized, a whole-value
+                                          write through the template is refused and nothing is written
+      setData(const T &value, offset)     (above: [view_set_value])
+
+    In the three-argument read an EMPTY count resizes the value to rank 0 (accepted by a scalar and by nix::NDArray:
+    one element) and is then handed on; the view reads it as "the whole window".  Repaired ([tget3_empty_count] off):
+    an empty count is one element, as in the two-argument template. *)
+Definition route_buf (r : route) (ext : list Z) : Z :=
+  match r with RScalar => 1 | _ => prod ext end.
+
+Definition view_tgetall (B : behaviour) (v : view) (a : arr) (r : route) : res (list Z * list V) :=
+  bind (route_resize r (view_extent v)) (fun ext =>
+  bind (view_read B v a (route_shape r ext) []) (fun vals =>
+  if route_buf r ext <? zlen vals then UB value_overrun_read else Ok (ext, vals))).
+
+Definition tget3_count (B : behaviour) (extent_rank : nat) (cnt off : list Z) : list Z :=
+  match cnt with
+  | [] => if tget3_empty_count B then [] else scalar_count extent_rank off
+  | _ :: _ => cnt
+  end.
+
+Definition view_tget3 (B : behaviour) (v : view) (a : arr) (r : route) (cnt off : list Z) : res (list Z * list V) :=
+  bind (route_resize r cnt) (fun ext =>
+  bind (view_read B v a (tget3_count B (List.length (view_extent v)) cnt off) off) (fun vals =>
+  if route_buf r ext <? zlen vals then UB value_overrun_read else Ok (ext, vals))).
+
+Definition view_tgetat (B : behaviour) (v : view) (a : arr) (r : route) (ext off : list Z) : res (list Z * list V) :=
+  bind (view_get_value B v a (route_shape r ext) (route_buf r ext) off) (fun vals => Ok (ext, vals)).
+
+Definition not_allowed : string := "std::runtime_error".
+
+(** DataView::dataExtent(const NDSize &) *)
+Definition view_set_extent (v : view) (sh : list Z) : res unit := Err not_allowed.
+
+Definition view_tsetall (B : behaviour) (v : view) (a : arr) (r : route) (ext : list Z) (gen : nat -> V) : res arr :=
+  bind (view_set_extent v (route_shape r ext)) (fun _ => Ok a).
+
+Definition view_tset (B : behaviour) (v : view) (a : arr) (r : route) (ext off : list Z) (gen : nat -> V) : res arr :=
+  view_set_value B v a (route_shape r ext) (route_buf r ext) off gen.
+
 (** the test array of the drivers: Int64, every cell holds its own flat row-major index *)
 Definition id_array (shape : list Z) : arr :=
   mkArr TInt64 CNone shape (tab shape (fun i => VI (ravel shape i))) None None.
